@@ -182,9 +182,19 @@ class Cx:
                     cands.setdefault(l, None)
         out = []
         for l in cands:
-            ok, _ = g.guarded(site.at, lambda lits, l=l: l in lits)
+            ok, _ = g.guarded(site.at, lambda lits, l=l: l in lits, subjects=False)
             if ok:
                 out.append(l)
+        # tests of one enum value that all dominate the site narrow it to their intersection
+        groups = {}
+        for l in out:
+            if l[0] == "in" and l[3] is not None:
+                groups.setdefault((l[1], l[3]), []).append(l[2])
+        for (e, adt), sets in groups.items():
+            if len(sets) > 1:
+                x = frozenset.intersection(*sets)
+                if x and all(x != s_ for s_ in sets):
+                    out.append(("in", e, x, adt))
         return out
 
     def run(self, only_props=None):
@@ -402,7 +412,13 @@ def _clause_holds(cx, site, accept, kill=True, assume=None, depth=2, start_held=
             if acc(l):
                 r = True
         return r
-    ok, wit = g.guarded(site.at, ok_edge, assume=assume, start_held=start_held)
+    ok, wit = g.guarded(site.at, ok_edge, assume=assume, start_held=start_held, subjects=False)
+    subjects = False
+    if not ok:
+        # successive tests of one enum value narrow it (`if r == Pending {return}; if r == Lost {return}; <Won here>`)
+        subjects = g.narrowing_subjects(acc) or False
+        if subjects:
+            ok, wit = g.guarded(site.at, ok_edge, assume=assume, start_held=start_held, subjects=subjects)
     note = ""
     if ok and kill:
         fp = set()
@@ -460,7 +476,7 @@ def _clause_holds(cx, site, accept, kill=True, assume=None, depth=2, start_held=
             def ok_edge_fresh(lits, bi):
                 return any(acc(l) and not stale(bi, l) for l in lits)
             ok_edge_fresh.with_block = True
-            ok, wit = g.guarded(site.at, ok_edge_fresh, kb, assume=assume, start_held=start_held)
+            ok, wit = g.guarded(site.at, ok_edge_fresh, kb, assume=assume, start_held=start_held, subjects=subjects)
             if not ok:
                 note = " [the guard's inputs may be overwritten between the guard and the site]"
     acc_s = [show_lit(l) for l, a in accepted.items() if a]
